@@ -41,7 +41,7 @@ func init() {
 		Level: "exploration",
 		Rule: "per decoder entry point (signature database / list / data, authentication descriptor, WIN_CERTIFICATE and its UEFI_GUID variant, supported-signature list, load option + device path followed by Format() of every node, UTF-16 string decoders, boot order through the store, attribute-prefixed variable files of both APIs, typed accessors on the in-memory store, the store's own descriptor probe, PEM key/certificate readers, GUID text/bytes): " +
 			"every truncation point of every seed (repository captures and synthetic values); every length/size/type field x boundary alphabet and all pairs; every device-path (type, sub-type) pair 0..255 x 0..255 with body lengths 0..24; PartitionFormat/SignatureType x all 256 values; all byte strings of length <= 2 and of length <= 5..6 over small alphabets; every single byte x 8 values of the small seeds. " +
-			"oracle: outcome class 'returned' only; panic, process exit (log shim), worker death, hang and allocation above 64 MiB + 64*len(input) are violations. " +
+			"well-formed PEM files of every other kind (PKCS#8 ECDSA/Ed25519/X25519/ECDH, SEC1, PKCS#1, public key, mislabelled blocks, PEM headers) with their truncations and byte changes. oracle: outcome class 'returned' only; panic, process exit (log shim), worker death, hang and allocation above 64 MiB + 64*len(input) are violations. " +
 			"static part: all call sites of log.Fatal*/os.Exit/panic/BytesOrPanic in the library packages (AST scan of the current tree) are listed; a site absent from the committed baseline is reported in the evidence as a new coverage goal (never an alarm by itself). non-trivial = input executed to completion and classified; distinct = distinct (entry point, input)",
 		Assumptions: []string{"generous fixed thresholds as in C13", "the static scan is a coverage guide: only dynamically witnessed terminations are violations"},
 		Units: func(tier string) []string {
@@ -398,6 +398,13 @@ func c14Run(c *hx.Ctx, tier, unit string) {
 			util.ReadCert(b)
 		}
 		seeds := [][]byte{keys.PEM(1), keys.CertPEM(keys.C(1))}
+		// well-formed PEM files of every other kind a key directory holds: the decoders must
+		// answer each with a value or an error
+		for _, o := range c14OtherPEMs() {
+			o := o
+			robustRun(c, "C14", "ReadKey/ReadCert", "well-formed PEM of another kind ("+o.name+")", o.pem, func() { f(o.pem) })
+			seeds = append(seeds, o.pem)
+		}
 		for _, s := range seeds {
 			step := len(s)/200 + 1
 			for n := 0; n <= len(s); n += step {
